@@ -336,6 +336,11 @@ def build(spec):
                         m[i] = c
                         i += 1
                 maps.append(m)
+            if (seed_ // 19) % 3 == 0 and spec["sym"] != "Z4" and not kw.get("phases") \
+                    and not kw.get("oddpos"):
+                # the module-level helper that picks the class by name
+                return sr.utils.from_dense(dense, spec["sym"], maps, [ix.dual for ix in indices],
+                                           fermionic=spec["kind"] == "F", charge=charge)
             return cls.from_dense(dense, maps, [ix.dual for ix in indices],
                                   charge=charge, invalid_sectors="ignore", **kw)
     if dynamic:
